@@ -152,3 +152,27 @@ Theorem c13_source_len_eq_yielded : forall order s, wf s -> length (order (epoch
       = Interp.Ok (SrcRun.zn (length ys)) st'.
 Proof. exact Tie.source_len_eq_yielded. Qed.
 Print Assumptions c13_source_len_eq_yielded.
+
+(* EpochRandomSampler.get_samples_for_epoch_ignoring_distributed as the source text does it (NumPy an oracle
+   perm seed epoch n = RandomState((seed, epoch)).permutation(n)): the order of an epoch is the permutation for
+   (base_seed, epoch) over exactly `total` items - for EVERY effective_total, rank, world size and epoch counter the
+   sampler object carries ("the order a sampler yields for an epoch is a function of (seed, epoch) alone") *)
+Theorem c13_source_random_order_is_seed_epoch_perm : forall perm seed s e,
+  Interp.run (SrcRun.ext_rs perm) C13Src.ers_order [(SrcRun.k_self, SrcRun.rand_self seed s); (SrcRun.k_epoch, Syntax.VInt e)]
+  = Interp.Ok (SrcRun.vnats (perm seed e (total s)))
+      (Interp.mkState [(SrcRun.k_self, SrcRun.rand_self seed s); (SrcRun.k_epoch, Syntax.VInt e);
+                       (SrcRun.k_rs, Syntax.VTuple [SrcRun.rs_tag; Syntax.VInt seed; Syntax.VInt e]);
+                       (SrcRun.k_shuffled, SrcRun.vnats (perm seed e (total s)))] []).
+Proof. exact Tie.ers_order_tie. Qed.
+Print Assumptions c13_source_random_order_is_seed_epoch_perm.
+
+(* ... hence the same inside any process group, under any uneven-handling mode, as outside *)
+Theorem c13_source_random_order_env_independent : forall perm seed s1 s2 e, total s1 = total s2 ->
+  exists st1 st2 v,
+    Interp.run (SrcRun.ext_rs perm) C13Src.ers_order [(SrcRun.k_self, SrcRun.rand_self seed s1); (SrcRun.k_epoch, Syntax.VInt e)]
+      = Interp.Ok v st1 /\
+    Interp.run (SrcRun.ext_rs perm) C13Src.ers_order [(SrcRun.k_self, SrcRun.rand_self seed s2); (SrcRun.k_epoch, Syntax.VInt e)]
+      = Interp.Ok v st2.
+Proof. exact Tie.ers_order_env_independent. Qed.
+Print Assumptions c13_source_random_order_env_independent.
+
